@@ -366,3 +366,80 @@ pub type Ps = credx::knox::ps::PsScheme;
 pub fn cred_of<S: ShortGroupSignatureScheme>(b: &CredentialBundle<S>) -> Credential<S> {
     b.credential.clone()
 }
+
+/// opaque, never-empty token for an identifier or label
+pub fn hx(s: &str) -> String {
+    format!("x{}", hex::encode(s.as_bytes()))
+}
+
+fn claim_type_name(t: credx::claim::ClaimType) -> &'static str {
+    use credx::claim::ClaimType;
+    match t {
+        ClaimType::Hashed => "hashed",
+        ClaimType::Number => "number",
+        ClaimType::Scalar => "scalar",
+        ClaimType::Revocation => "revocation",
+        ClaimType::Enumeration => "enumeration",
+        ClaimType::Unknown => "unknown",
+    }
+}
+
+/// structural description of (schema, presentation) for the model's plan stage (`vf.plan`)
+pub fn plan_line<S: ShortGroupSignatureScheme>(schema: &PresentationSchema<S>, q: &Presentation<S>, suite: &str) -> String {
+    let j = |v: Vec<String>, sep: &str| if v.is_empty() { "-".to_string() } else { v.join(sep) };
+    let mut stmts = vec![];
+    for (_key, st) in &schema.statements {
+        let refs = |r: Vec<(String, usize)>| j(r.into_iter().map(|(a, b)| format!("{}:{}", hx(&a), b)).collect(), ",");
+        let t = match st {
+            Statements::Signature(ss) => format!(
+                "S/{}/{}/{}/{}/{}",
+                hx(&ss.id),
+                ss.issuer.schema.claims.len(),
+                j(ss.disclosed.iter().map(|l| hx(l)).collect(), ","),
+                j(ss.issuer.schema.claim_indices.iter().map(|l| hx(l)).collect(), ","),
+                j(ss.issuer.schema.claims.iter().map(|c| claim_type_name(c.claim_type).to_string()).collect(), ",")
+            ),
+            Statements::Equality(e) => format!("P/equality/{}/{}", hx(&e.id), refs(e.ref_id_claim_index.iter().map(|(a, b)| (a.clone(), *b)).collect())),
+            Statements::Revocation(x) => format!("P/revocation/{}/{}", hx(&x.id), refs(vec![(x.reference_id.clone(), x.claim)])),
+            Statements::Commitment(x) => format!("P/commitment/{}/{}", hx(&x.id), refs(vec![(x.reference_id.clone(), x.claim)])),
+            Statements::VerifiableEncryption(x) => format!("P/verenc/{}/{}", hx(&x.id), refs(vec![(x.reference_id.clone(), x.claim)])),
+            Statements::VerifiableEncryptionDecryption(x) => format!("P/ved/{}/{}", hx(&x.id), refs(vec![(x.reference_id.clone(), x.claim)])),
+            Statements::Membership(x) => format!("P/membership/{}/{}", hx(&x.id), refs(vec![(x.reference_id.clone(), x.claim)])),
+            Statements::Range(x) => format!("P/range/{}/{}", hx(&x.id), refs(vec![(x.reference_id.clone(), x.claim)])),
+        };
+        stmts.push(t);
+    }
+    let mut proofs = vec![];
+    for (key, pr) in &q.proofs {
+        use credx::presentation::PresentationProofs as PP;
+        let (kind, inner, plen) = match pr {
+            PP::Signature(sp) => {
+                let v = serde_json::to_value(pr).unwrap_or(Value::Null);
+                let plen = v["Signature"]["pok"]["proof"].as_array().map(|a| a.len()).unwrap_or(0);
+                ("signature", j(sp.disclosed_messages.iter().map(|(i, s)| format!("{}:{}", i, sc_hex(s))).collect(), ","), plen)
+            }
+            PP::Revocation(_) => ("revocation", "-".to_string(), 0),
+            PP::Equality(_) => ("equality", "-".to_string(), 0),
+            PP::Commitment(_) => ("commitment", "-".to_string(), 0),
+            PP::VerifiableEncryption(_) => ("verenc", "-".to_string(), 0),
+            PP::Range(_) => ("range", "-".to_string(), 0),
+            PP::Membership(_) => ("membership", "-".to_string(), 0),
+            PP::VerifiableEncryptionDecryption(_) => ("ved", "-".to_string(), 0),
+        };
+        proofs.push(format!("{}/{}/{}/{}/{}", hx(key), kind, hx(pr.id()), inner, plen));
+    }
+    let mut disclosed = vec![];
+    for (id, dm) in &q.disclosed_messages {
+        disclosed.push(format!("{}/{}", hx(id), j(dm.iter().map(|(l, c)| format!("{}~{}~{}", hx(l), crate::claims::claim_str(c), sc_hex(&c.to_scalar()))).collect(), ",")));
+    }
+    format!("vf.plan {} {} {} {}", if suite == "bbs" { 0 } else { 2 }, j(stmts, ";"), j(proofs, ";"), j(disclosed, ";"))
+}
+
+/// class of the real verifier's run: did it get past the plan stage (i.e. compute the challenge)?
+pub fn plan_class<S: ShortGroupSignatureScheme>(q: &Presentation<S>, schema: &PresentationSchema<S>, nonce: &[u8]) -> (&'static str, Out<()>) {
+    let (r, ch, _) = verify_logged(q, schema, nonce);
+    if r.is_panic() {
+        return ("panic", r);
+    }
+    (if ch.is_some() { "plan-ok" } else { "plan-err" }, r)
+}
